@@ -715,6 +715,25 @@ impl Check for C02 {
                 _ => Source::Crafted { seed: rng.next_u64(), rounds_delta: *rng.pick(&[0i32, 0, 0, 0, 0, 1, -1]) },
             };
             members.push(MemberSpec { m, cap, wit, ctx: Context::generate(rng), rng_seed: rng.next_u64(), source });
+            // duplicate delivery: the same proof and commitments again, right behind, under a
+            // statement or context that differs
+            if n_members > 1 && mi + 1 < n_members && rng.chance(1, 5) {
+                let mut twin = members.last().unwrap().clone();
+                twin.source = Source::Faulted {
+                    faults: vec![rng
+                        .pick(&[
+                            Fault::Promise { j: 0, with: PromiseRepl::PlusOne },
+                            Fault::Promise { j: 0, with: PromiseRepl::Toggle },
+                            Fault::ContextExtra,
+                            Fault::ContextLabel,
+                        ])
+                        .clone()],
+                    fault_seed: rng.next_u64(),
+                };
+                if matches!(members.last().unwrap().source, Source::Honest) {
+                    members.push(twin);
+                }
+            }
         }
         Scenario {
             group: if ristretto { "ristretto".into() } else { "free".into() },
@@ -752,6 +771,9 @@ impl Check for C02 {
             }
         }
         st.probe(&format!("ext_{}", sc.ext));
+        if sc.members.windows(2).any(|w| w[0].rng_seed == w[1].rng_seed && matches!(w[0].source, Source::Honest)) {
+            st.probe("honest_member_followed_by_altered_duplicate");
+        }
         if sc.group == "free" {
             run_free(sc, st)
         } else {
@@ -851,7 +873,7 @@ impl Check for C02 {
             "shape_rejection_expected", "crafted_proof", "crafted_wrong_round_count", "m_ge_8", "capacity_gt_m",
             "nonzero_promise", "ext_1", "ext_2", "ext_3", "ext_4", "ext_5", "ext_6", "flip_bit", "replace_scalar",
             "replace_point", "drop_round", "add_round", "replace_commitment", "promise", "swap_commitments", "bits",
-            "generator_h", "generator_g", "retag_extension",
+            "generator_h", "generator_g", "retag_extension", "honest_member_followed_by_altered_duplicate",
         ]
     }
 }
